@@ -146,9 +146,14 @@ fn apply_locked(st: &mut UState, kind: &str, obj: &Value) -> u64 {
 
 impl Universe {
     pub fn new(initial: &[Value]) -> Arc<Universe> {
+        Self::new_at(initial, 100)
+    }
+
+    /// `rv`: the resource version the universe starts from (the objects of `initial` get the next ones)
+    pub fn new_at(initial: &[Value], rv: u64) -> Arc<Universe> {
         let (tx, _rx) = watch::channel(0u64);
         let mut st = UState {
-            rv: 100,
+            rv,
             objects: BTreeMap::new(),
             log: Vec::new(),
             compacted_below: 0,
